@@ -3,8 +3,18 @@
    Model: scopes/Machine.v (S machine).  Tie T: ChainGen.v is regenerated from the Python source by
    tools/translate_chain.py on every check; the *_gen_eq theorems below are what breaks when a walk changes. *)
 From AV Require Import Base Machine ChainSpec ChainGen ChainEq ChainFrame ChainThms ChainWalk ChainMono NativeAbsorbed.
+From AV Require Import DeliverInv TreeStep ChainReach ChainWindow.
 
 (* ---------------- tie T: generated code = specification, for all chains ---------------- *)
+(* a scope record carries r_hosted = `_host_task is not None` (entered, not yet exited).  Since the F42 fix the walks
+   of _effectively_cancelled / checkpoint_if_cancelled / current_effective_deadline go through the property
+   _visible_parent_scope, which is None for a shielded OR an exited scope; check_cancelled and _restart_cancellation
+   still stop at shields only. *)
+Theorem C04_visible_parent_gen_eq : forall x : scope_rec,
+  gen_visible_parent_stops x = (r_shield x || negb (r_hosted x)).
+Proof. exact visible_parent_gen_eq. Qed.
+Print Assumptions C04_visible_parent_gen_eq.
+
 Theorem C04_eff_cancelled_gen_eq : forall l : list scope_rec,
   gen_effectively_cancelled l = eff_cancelled_spec l.
 Proof. exact eff_cancelled_gen_eq. Qed.
@@ -13,7 +23,7 @@ Print Assumptions C04_eff_cancelled_gen_eq.
 Theorem C04_eff_cancelled_spec_meaning : forall l : list scope_rec,
   eff_cancelled_spec l = true <->
   exists pre r post, l = pre ++ r :: post /\
-    Forall (fun q => r_cancelled q = false /\ r_shield q = false) pre /\ r_cancelled r = true.
+    Forall (fun q => r_cancelled q = false /\ (r_shield q || negb (r_hosted q)) = false) pre /\ r_cancelled r = true.
 Proof. exact eff_cancelled_spec_iff. Qed.
 Print Assumptions C04_eff_cancelled_spec_meaning.
 
@@ -26,7 +36,7 @@ Theorem C04_parent_visible_spec_meaning : forall l : list scope_rec,
   parent_visible_spec l = true <->
   exists self rest, l = self :: rest /\ r_shield self = false /\
     exists pre r post, rest = pre ++ r :: post /\
-      Forall (fun q => r_cancelled q = false /\ r_shield q = false) pre /\ r_cancelled r = true.
+      Forall (fun q => r_cancelled q = false /\ (r_shield q || negb (r_hosted q)) = false) pre /\ r_cancelled r = true.
 Proof. exact parent_visible_spec_iff. Qed.
 Print Assumptions C04_parent_visible_spec_meaning.
 
@@ -35,9 +45,42 @@ Proof. exact ckif_spins_gen_eq. Qed.
 Print Assumptions C04_ckif_spins_gen_eq.
 
 Theorem C04_check_cancelled_gen_eq : forall l : list scope_rec,
-  gen_check_cancelled_raises l = eff_cancelled_spec l.
+  gen_check_cancelled_raises l = sh_cancelled_spec l.
 Proof. exact check_cancelled_gen_eq. Qed.
 Print Assumptions C04_check_cancelled_gen_eq.
+
+(* sh_cancelled_spec: the walk that stops at shields only (check_cancelled; every walk before the F42 fix) *)
+Theorem C04_sh_cancelled_spec_meaning : forall l : list scope_rec,
+  sh_cancelled_spec l = true <->
+  exists pre r post, l = pre ++ r :: post /\
+    Forall (fun q => r_cancelled q = false /\ r_shield q = false) pre /\ r_cancelled r = true.
+Proof. exact sh_cancelled_spec_iff. Qed.
+Print Assumptions C04_sh_cancelled_spec_meaning.
+
+(* F42: the three walks stop at an exited scope and ignore everything above it ... *)
+Theorem C04_chain_walk_stops_at_exited_scope : forall (pre : list scope_rec) (e : scope_rec) (post : list scope_rec),
+  r_hosted e = false ->
+  eff_cancelled_spec (pre ++ e :: post) = eff_cancelled_spec (pre ++ [e]) /\
+  ckif_spins_spec (pre ++ e :: post) = ckif_spins_spec (pre ++ [e]) /\
+  eff_deadline_spec (pre ++ e :: post) = eff_deadline_spec (pre ++ [e]).
+Proof. exact chain_walk_stops_at_exited_scope. Qed.
+Print Assumptions C04_chain_walk_stops_at_exited_scope.
+
+(* ... e.g. a task left in the exited internal scope of run_sync() below a cancelled ancestor: not effectively
+   cancelled, checkpoint_if_cancelled does not spin, effective deadline +inf *)
+Theorem C04_f42_new_walks :
+  let chain := [mkRec false false None false false; mkRec true false (Some 3%Z) true true] in
+  eff_cancelled_spec chain = false /\ ckif_spins_spec chain = false /\ eff_deadline_spec chain = XInf.
+Proof. exact f42_new_walks. Qed.
+Print Assumptions C04_f42_new_walks.
+
+(* the pre-fix walk (shields only) on the same chain: effectively cancelled although no delivery path exists
+   (delivery is downward through _child_scopes, the exited scope is unlinked): the spin of F42 *)
+Theorem C04_f42_old_walk_refuted_pinned :
+  let chain := [mkRec false false None false false; mkRec true false (Some 3%Z) true true] in
+  sh_cancelled_spec chain = true /\ eff_cancelled_spec chain = false.
+Proof. exact f42_old_walk_refuted_pinned. Qed.
+Print Assumptions C04_f42_old_walk_refuted_pinned.
 
 Theorem C04_restart_target_gen_eq : forall l : list scope_rec,
   gen_restart_target l = restart_target_spec l.
@@ -66,20 +109,54 @@ Proof. exact is_anyio_cancellation_spec_iff. Qed.
 Print Assumptions C04_is_anyio_cancellation_spec_meaning.
 
 (* ---------------- the machine evaluates exactly these functions (through chain_of) ---------------- *)
+(* The machine's walks stop at shields only.  They are the generated walks on every chain whose scopes are all still
+   entered, and in every reachable state of the generated domain (reach_ok, TreeStep.v) every walk that starts at an
+   active scope -- in particular at a task's current scope -- only visits entered scopes. *)
+Theorem C04_reach_walks_see_entered_scopes : forall (s : st) (fuel : nat) (t : tid),
+  reach_ok s -> Forall (fun r => r_hosted r = true) (chain_of fuel s (k_cur (tasks s t))).
+Proof. exact reach_walks_see_entered_scopes. Qed.
+Print Assumptions C04_reach_walks_see_entered_scopes.
+
+Theorem C04_reach_walks_coincide : forall (s : st) (fuel : nat) (t : tid),
+  reach_ok s ->
+  sh_cancelled_spec (chain_of fuel s (k_cur (tasks s t))) = eff_cancelled_spec (chain_of fuel s (k_cur (tasks s t))).
+Proof. exact reach_walks_coincide. Qed.
+Print Assumptions C04_reach_walks_coincide.
+
 Theorem C04_machine_eff_cancelled_is_generated : forall (s : st) (c : sid),
+  Forall (fun r => r_hosted r = true) (chain_of (nscope s) s (Some c)) ->
   eff_cancelled s c = gen_effectively_cancelled (chain_of (nscope s) s (Some c)).
 Proof. exact machine_eff_cancelled_eq. Qed.
 Print Assumptions C04_machine_eff_cancelled_is_generated.
 
+Theorem C04_reach_eff_cancelled_is_generated : forall (s : st) (c : sid),
+  reach_ok s -> s_active (scopes s c) = true ->
+  eff_cancelled s c = gen_effectively_cancelled (chain_of (nscope s) s (Some c)).
+Proof. exact reach_eff_cancelled_is_generated. Qed.
+Print Assumptions C04_reach_eff_cancelled_is_generated.
+
 Theorem C04_machine_parent_visible_is_generated : forall (s : st) (c : sid),
+  Forall (fun r => r_hosted r = true) (chain_of (S (nscope s)) s (Some c)) ->
   parent_visible s c = gen_parent_visible (chain_of (S (nscope s)) s (Some c)).
 Proof. exact machine_parent_visible_gen. Qed.
 Print Assumptions C04_machine_parent_visible_is_generated.
 
+Theorem C04_reach_parent_visible_is_generated : forall (s : st) (c : sid),
+  reach_ok s -> s_active (scopes s c) = true ->
+  parent_visible s c = gen_parent_visible (chain_of (S (nscope s)) s (Some c)).
+Proof. exact reach_parent_visible_is_generated. Qed.
+Print Assumptions C04_reach_parent_visible_is_generated.
+
 Theorem C04_machine_ckif_is_generated : forall (fuel : nat) (s : st) (x : option sid),
+  Forall (fun r => r_hosted r = true) (chain_of fuel s x) ->
   ckif_spins fuel s x = gen_ckif_spins (chain_of fuel s x).
 Proof. exact machine_ckif_spins_gen. Qed.
 Print Assumptions C04_machine_ckif_is_generated.
+
+Theorem C04_reach_ckif_is_generated : forall (s : st) (fuel : nat) (t : tid),
+  reach_ok s -> ckif_spins fuel s (k_cur (tasks s t)) = gen_ckif_spins (chain_of fuel s (k_cur (tasks s t))).
+Proof. exact reach_ckif_is_generated. Qed.
+Print Assumptions C04_reach_ckif_is_generated.
 
 Theorem C04_machine_restart_is_generated : forall (fuel : nat) (s : st) (x : option sid),
   restart_from fuel s x =
@@ -211,3 +288,78 @@ Theorem C04_shield_raised_after_request_refuted :
   last (results init f25_ops) RNone = RExc (ECancel 2%nat).
 Proof. exact shield_raised_after_request_witness. Qed.
 Print Assumptions C04_shield_raised_after_request_refuted.
+
+(* ---------------- containment on the generated domain, request time and receipt time ---------------- *)
+(* reach_ok s = s is reached from init by an op list of the generated domain (TreeStep.ops_ok).  The tree hypotheses
+   of C04_cancel_only_if_effectively_cancelled are discharged and the conclusion uses the machine's own
+   eff_cancelled (= the generated walk, C04_reach_eff_cancelled_is_generated). *)
+Theorem C04_request_only_if_effectively_cancelled_reach : forall (s : st) (c : sid) (t : tid),
+  reach_ok s -> s_cancelled (scopes s c) = true ->
+  tasks (deliver_top s c) t <> tasks s t ->
+  exists x, k_cur (tasks s t) = Some x /\ eff_cancelled s x = true /\ (x = c \/ s_shield (scopes s x) = false) /\
+            exists n, vpath s c x n.
+Proof. exact reach_cancel_only_if_effectively_cancelled. Qed.
+Print Assumptions C04_request_only_if_effectively_cancelled_reach.
+
+(* the same read upwards: c is the n-th scope above the task's current scope (up s x n follows _parent_scope n times)
+   and every scope strictly below it on that chain is neither cancelled nor shielded *)
+Theorem C04_reach_request_chain : forall (s : st) (c : sid) (t : tid),
+  reach_ok s -> s_cancelled (scopes s c) = true -> tasks (deliver_top s c) t <> tasks s t ->
+  exists x n, k_cur (tasks s t) = Some x /\ up s x n = Some c /\
+    forall j y, j < n -> up s x j = Some y -> s_cancelled (scopes s y) = false /\ s_shield (scopes s y) = false.
+Proof. exact reach_request_chain. Qed.
+Print Assumptions C04_reach_request_chain.
+
+(* The gap between request time (s0) and receipt time (s1), stated precisely: if the chain above the task's current
+   scope is unchanged and the origin is still cancelled (cancel_called is never reset,
+   C04_caught_only_by_absorbing_exit), then the walk at receipt time still finds a cancelled scope UNLESS a scope on the
+   chain strictly below the origin (the current scope included) had its shield raised in between and is not itself
+   cancelled -- the pattern of F25, and nothing else.
+   `_partial`: the lifting to whole runs (every receipt of every run has such a request state, with the chain
+   unchanged in between) is stated as ChainWindow.receipt_window_run_statement and is NOT proved; it needs, for every
+   op of step, that tagged requests are only placed by delivery runs and that a suspended task's chain is frozen. *)
+Theorem C04_receipt_visible_unless_shield_raised_partial : forall (s0 s1 : st) (n : nat) (x org : sid) (k : nat),
+  up s0 x n = Some org ->
+  (forall j y, j < n -> up s0 x j = Some y ->
+               s_cancelled (scopes s0 y) = false /\ s_shield (scopes s0 y) = false) ->
+  s_cancelled (scopes s0 org) = true ->
+  (forall j y, j < n -> up s0 x j = Some y -> s_parent (scopes s1 y) = s_parent (scopes s0 y)) ->
+  s_cancelled (scopes s1 org) = true ->
+  eff_cancelled_from (S n + k) s1 (Some x) = true \/
+  exists j y, j < n /\ up s0 x j = Some y /\ s_shield (scopes s0 y) = false /\
+              s_shield (scopes s1 y) = true /\ s_cancelled (scopes s1 y) = false.
+Proof. exact receipt_visible_unless_shield_raised. Qed.
+Print Assumptions C04_receipt_visible_unless_shield_raised_partial.
+
+(* F25 is an instance of that gap: the request is placed by AExtCancel 1 (after 7 ops) while scope 2 is unshielded and
+   effectively cancelled; the shield of scope 2 is raised before task 1 runs; at the receipt scope 2 is shielded and not
+   effectively cancelled *)
+Theorem C04_f25_is_the_gap :
+  let s0 := final step init (firstn 7 f25_ops) in
+  let s1 := final step init (removelast f25_ops) in
+  ops_ok init f25_ops = true /\
+  receives s1 (HWake 1 6) 1 1 /\
+  k_cur (tasks s0 1) = Some 2 /\ k_cur (tasks s1 1) = Some 2 /\ up s0 2 1 = Some 1 /\
+  s_cancelled (scopes s0 1) = true /\ s_cancelled (scopes s0 2) = false /\ s_shield (scopes s0 2) = false /\
+  eff_cancelled s0 2 = true /\ requested s0 1 2 /\
+  eff_cancelled s1 2 = false /\ s_shield (scopes s1 2) = true.
+Proof. exact f25_is_the_gap. Qed.
+Print Assumptions C04_f25_is_the_gap.
+
+(* ---------------- audit S4: a scope used for two `with` blocks in sequence ---------------- *)
+(* ops_ok admits it (__enter__ only rejects an ACTIVE scope); the case generator of the harness enters every scope
+   once, so the correspondence does not exercise it.  The second block starts cancelled and with cancelled_caught
+   already true (clause "cancelled_caught is true exactly for the scopes that absorbed one" refuted for re-used
+   scopes), and its first checkpoint is cancelled at once. *)
+Theorem C04_reused_scope_born_cancelled_refuted :
+  let first := [ANewRoot; ANewScope 1 None false; AEnter 1 1; ACancel 1 1; AYield 1; ARun (HDeliver 1);
+                ARun (HStep 1); AExit 1 1 false] in
+  let s1 := final step init first in
+  let s2 := final step init (first ++ [AEnter 1 1]) in
+  ops_ok init (first ++ [AEnter 1 1]) = true /\
+  s_active (scopes s1 1) = false /\ s_caught (scopes s1 1) = true /\ k_held (tasks s1 1) = None /\
+  s_active (scopes s2 1) = true /\ s_cancelled (scopes s2 1) = true /\ s_caught (scopes s2 1) = true /\
+  let s3 := final step s2 [AYield 1; ARun (HDeliver 1)] in
+  snd (step s3 (ARun (HStep 1))) = RExc (ECancel 2).
+Proof. exact reused_scope_born_cancelled_refuted. Qed.
+Print Assumptions C04_reused_scope_born_cancelled_refuted.
